@@ -143,4 +143,29 @@ Definition Fb_next (prog : rule) : bool :=
 
 
 (* the proved fragment *)
-Definition Fx (prog : rule) : bool := Fb prog || Fb_next prog.
+Definition Fx0 (prog : rule) : bool := Fb prog || Fb_next prog.
+
+(* ---- wider: the last top-level branch is a next_rule that may carry refinements (but no alternative / next_rule in
+   its own block), there is no other next_rule, and its conclusions are not conclusions of the rest ---- *)
+Fixpoint only_refs (body : list (kind * rule)) : bool :=
+  match body with [] => true | (KRef, _) :: l' => only_refs l' | _ => false end.
+Definition split_root_next2 (prog : rule) : option (rule * rule) :=
+  match prog with
+  | Rule cs tg body =>
+      match split_last body with
+      | Some (body', (KNext, q)) =>
+          if has_next (Rule cs tg body') || has_next q || negb (only_refs (r_body q)) then None
+          else Some (Rule cs tg body', q)
+      | _ => None
+      end
+  end.
+Definition disjointb (a b : list nat) : bool := forallb (fun x => negb (memb x b)) a.
+Definition Fb_next2 (prog : rule) : bool :=
+  Gb prog &&
+  match split_root_next2 prog with
+  | Some (prog', q) => disjointb (tags_of q) (tags_of prog')
+  | None => false
+  end.
+
+(* the proved fragment *)
+Definition Fx (prog : rule) : bool := Fb prog || Fb_next prog || Fb_next2 prog.
